@@ -3,6 +3,8 @@ package main
 import (
 	"fmt"
 	"go/token"
+	"go/types"
+	"strings"
 
 	"golang.org/x/tools/go/ssa"
 )
@@ -34,11 +36,13 @@ func propC12(c *Ctx) propInfo {
 	la.lockOrder("E9.K4-lock-order")
 	la.whoMayWrite("E9.W-status-writers", "liteclient.Connection.status", map[string]string{
 		"(*liteclient.Connection).setupEncryptedConnection": "publishes Connected after the encrypted connection is set up",
-		"(*liteclient.Connection).reconnect":                 "the only transition to Connecting; guarded by the 'already Connecting' test so that one reconnect runs at a time",
-		"(*liteclient.Connection).handleAuthResponse":        "publishes Connected after authentication",
+		"(*liteclient.Connection).reconnect":                "the only transition to Connecting; guarded by the 'already Connecting' test so that one reconnect runs at a time",
+		"(*liteclient.Connection).handleAuthResponse":       "publishes Connected after authentication",
 	})
 	c.requestProtocol()
 	c.reconnectRetry()
+	c.silenceTimer()
+	c.freshFrameBuffer("E9.K11-own-buffer")
 	c.floor("E9.K1-guarded-by", 20)
 	c.floor("E9.K2-pairing", 10)
 	c.floor("E9.K5-request-protocol", 8)
@@ -347,4 +351,123 @@ func (c *Ctx) reconnectRetry() {
 	}
 	c.check(okExit && nExit == 1, R, "the reconnect loop ends only with a successful attempt", f.Pos(), "single exit: err == nil", fmt.Sprintf("reconnect's retry loop has %d exit edge(s), not only the successful-attempt edge: the client can give up reconnecting", nExit))
 	c.floor(R, 2)
+}
+
+// silenceTimer (K10): the reader treats "nothing received for reconnectTimeout" as a dead
+// connection. Every received packet - pongs and auth packets included - must restart that timer:
+// either the timer channel is created afresh in every iteration (time.After inside the loop), or a
+// reusable timer is Reset on every path from the select back to the select.
+func (c *Ctx) silenceTimer() {
+	const R = "E9.K10-silence-timer"
+	f := c.mustFn(R, "liteclient", "Connection.reader")
+	if f == nil {
+		return
+	}
+	var sel *ssa.Select
+	allInstrs(f, func(b *ssa.BasicBlock, in ssa.Instruction) {
+		if s, ok := in.(*ssa.Select); ok && s.Blocking && inLoop(b) {
+			sel = s
+		}
+	})
+	if sel == nil {
+		c.bad(R, "reader select", f.Pos(), "Connection.reader has no blocking select in a loop (anchor moved?)")
+		return
+	}
+	okv := false
+	why := "no timer case"
+	for _, st := range sel.States {
+		if st.Dir != types.RecvOnly {
+			continue
+		}
+		// fresh per iteration
+		if cl := callOf(st.Chan); cl != nil && callQName(&cl.Call) == "time.After" {
+			if inLoop(cl.Block()) {
+				okv = true
+			} else {
+				why = "the time.After channel is created once, outside the loop"
+			}
+			continue
+		}
+		// reusable timer: field C of a *time.Timer
+		if _, n, ok := fieldOfLoad(st.Chan); ok && n == "C" {
+			var timer ssa.Value
+			if u, ok := st.Chan.(*ssa.UnOp); ok {
+				if fa, ok := u.X.(*ssa.FieldAddr); ok {
+					timer = fa.X
+				}
+			}
+			// blocks that Reset this timer
+			cut := map[*ssa.BasicBlock]bool{}
+			allInstrs(f, func(b *ssa.BasicBlock, in ssa.Instruction) {
+				if cl, ok := in.(*ssa.Call); ok && callQName(&cl.Call) == "time.Timer.Reset" && cl.Call.Args[0] == timer {
+					cut[b] = true
+				}
+			})
+			// from the select's successors, can we come back to the select without passing a Reset block?
+			seen := map[*ssa.BasicBlock]bool{}
+			var st2 []*ssa.BasicBlock
+			st2 = append(st2, sel.Block().Succs...)
+			back := false
+			for len(st2) > 0 {
+				b := st2[len(st2)-1]
+				st2 = st2[:len(st2)-1]
+				if seen[b] || cut[b] {
+					continue
+				}
+				seen[b] = true
+				if b == sel.Block() {
+					back = true
+					break
+				}
+				st2 = append(st2, b.Succs...)
+			}
+			if back {
+				why = "a reusable timer is not Reset on every path back to the select (e.g. the pong / auth branches that continue)"
+			} else {
+				okv = true
+			}
+		}
+	}
+	c.check(okv, R, "every iteration of the reader restarts the silence timer", sel.Pos(), "time.After(reconnectTimeout) inside the loop", "Connection.reader: "+why+": a healthy connection that only sees ping/pong traffic for reconnectTimeout is torn down and a call in flight loses its answer")
+	c.floor(R, 1)
+}
+
+// freshFrameBuffer: every packet handed to a caller owns its bytes: ParsePacket reads each frame
+// into a buffer allocated in that call (no pool, no package-level buffer), so a payload on its way to
+// one caller cannot be overwritten by the next frame.
+func (c *Ctx) freshFrameBuffer(R string) {
+	f := c.mustFn(R, "liteclient", "ParsePacket")
+	if f == nil {
+		return
+	}
+	okv := true
+	n := 0
+	for _, rf := range callsTo(f, "io.ReadFull") {
+		n++
+		buf := rf.Call.Args[1]
+		fresh := derivesFrom(buf, func(v ssa.Value) bool {
+			switch x := v.(type) {
+			case *ssa.MakeSlice:
+				return true
+			case *ssa.Alloc:
+				_, isArr := x.Type().(*types.Pointer).Elem().Underlying().(*types.Array)
+				return isArr || x.Comment == "makeslice"
+			}
+			return false
+		}, false)
+		shared := derivesFrom(buf, func(v ssa.Value) bool {
+			if _, ok := v.(*ssa.Global); ok {
+				return true
+			}
+			if cl := callOf(v); cl != nil && strings.HasPrefix(callQName(&cl.Call), "sync.Pool.") {
+				return true
+			}
+			return false
+		}, true)
+		if !fresh || shared {
+			okv = false
+		}
+	}
+	c.check(okv && n == 2, R, "ParsePacket reads every frame into a buffer allocated by that call", f.Pos(), "make([]byte, …) per call", "ParsePacket reads frames into a pooled or shared buffer (or one not allocated by the call): the payload returned to one caller aliases memory the next frame is read into, so concurrent callers receive each other's bytes")
+	c.floor(R, 1)
 }
